@@ -130,6 +130,22 @@ def leanchecker(modules):
 # ---------------------------------------------------------------- parallel runs
 
 
+def tag_replay(out, fn_mod, fn_name, payload):
+    """every violation / correspondence break remembers the deterministic batch that produced it"""
+    how = {"module": fn_mod, "fn": fn_name, "payload": list(payload)}
+    for c in out.get("corr", []):
+        if isinstance(c, dict):
+            c.setdefault("_replay", how)
+    for v in out.get("viol", []):
+        if isinstance(v, dict):
+            v.setdefault("_replay", how)
+    for oc in out.get("oracles", {}).values():
+        for v in oc.get("viol", []):
+            if isinstance(v, dict):
+                v.setdefault("_replay", how)
+    return out
+
+
 def _worker(args):
     fn_mod, fn_name, payload = args
     import importlib
@@ -141,10 +157,12 @@ def _worker(args):
 def parallel(fn_mod, fn_name, payloads, procs=None):
     procs = procs or min(16, max(1, len(payloads)))
     if procs == 1 or len(payloads) == 1:
-        return [_worker((fn_mod, fn_name, p)) for p in payloads]
-    ctx = mp.get_context("fork")
-    with ctx.Pool(procs) as pool:
-        return pool.map(_worker, [(fn_mod, fn_name, p) for p in payloads])
+        outs = [_worker((fn_mod, fn_name, p)) for p in payloads]
+    else:
+        ctx = mp.get_context("fork")
+        with ctx.Pool(procs) as pool:
+            outs = pool.map(_worker, [(fn_mod, fn_name, p) for p in payloads])
+    return [tag_replay(o, fn_mod, fn_name, p) if isinstance(o, dict) else o for o, p in zip(outs, payloads)]
 
 
 # ---------------------------------------------------------------- known findings
